@@ -16,6 +16,7 @@ from __future__ import annotations
 
 import json
 import random
+import time
 import subprocess
 from pathlib import Path
 
@@ -120,9 +121,9 @@ def run(ctx):
     r = run_tlc("Archive", "SPECIFICATION Spec\n" + BASE % (uni, mm, mk, "") + INVS, scratch=ctx.scratch, timeout=1500)
     ev.tlc(f"Archive: reference design, {uni} lists <= {mm}, histories k <= {mk}: all invariants", r)
     if thorough:
-        r3 = run_tlc("Archive", "SPECIFICATION Spec\n" + BASE % ("MT_C09s", 3, 3, "") + INVS, scratch=ctx.scratch,
+        r3 = run_tlc("Archive", "SPECIFICATION Spec\n" + BASE % ("MT_C09s", 3, 2, "") + INVS, scratch=ctx.scratch,
                      timeout=2400, heap="8g")
-        ev.tlc("Archive: reference design, MT_C09s lists <= 3, histories k <= 3: all invariants", r3)
+        ev.tlc("Archive: reference design, MT_C09s lists <= 3, histories k <= 2: all invariants", r3)
     for d in (SENS if thorough else ["RereadUnchecked", "NoCleanupOnEarlyExit"]):
         rs = run_tlc("Archive", "SPECIFICATION Spec\n" + BASE % (uni, mm, mk, f'"{d}"') + INVS, scratch=ctx.scratch,
                      expect_fail=True, timeout=900)
@@ -131,7 +132,7 @@ def run(ctx):
             raise MachineryError(f"sensitivity run with deviation {d} did not fail: invariant vacuous")
     # ---- 2. enumerate cases, run them
     if thorough:
-        rg, cases = dump_cases(ctx, "MT_C09s", 3, 3, "c09gen")
+        rg, cases = dump_cases(ctx, "MT_C09s", 3, 2, "c09gen")
         rg2, cases2 = dump_cases(ctx, "MT_C09", 2, 2, "c09gen2")
         ev.tlc("ArchiveGen: cases MT_C09 lists <= 2", rg2)
         seen = {json.dumps(c, sort_keys=True) for c in cases}
@@ -151,7 +152,6 @@ def run(ctx):
             c["variants"] = [{"coder": rng.choice(["copy", "lzma", "lzma2", "mixed"]),
                               "layout": rng.choice(["solid", "perfile", "mixed"]), "enc": rng.random() < 0.4}]
     ctx.log(f"{len(cases)} cases enumerated by TLC")
-    import time
     t0 = time.time()
     big = [c for c in cases if any(m["kind"] == "oversize" for m in c["members"])]
     big = [dict(c, id="big" + c["id"], n=10_000_000 + c["n"]) for c in big if len(c["members"]) == 1][: 12 if thorough else 3]
@@ -159,7 +159,7 @@ def run(ctx):
     traces += run_workers(ctx, big, True, "c09big", nworkers=3, limit=0)       # the default 10 MB limit
     ctx.log(f"workers done in {time.time() - t0:.1f}s, {len(traces)} traces")
     dbg = [t.pop("dbg") for t in traces]
-    br = validate("ArchiveTrace", TRACE_CFG % "property", traces, scratch=ctx.scratch, parallel=12, min_chunk=300,
+    br = validate("ArchiveTrace", TRACE_CFG % "confine", traces, scratch=ctx.scratch, parallel=12, min_chunk=300,
                   timeout=1800)
     ev.tlc_counts("ArchiveTrace: recorded histories validated against the invariants", br.distinct, br.states, br.wall_s)
     n_fs = 0
